@@ -12,9 +12,11 @@ from harness.props.c04 import compare_factor
 OBLIGATIONS = [
     "PgmVerif.C02_update_preserves_measure", "PgmVerif.C02_two_clique_exact", "PgmVerif.C02_sepset_agreement_after_update",
     "PgmVerif.C02_calibrated_tree_exact", "PgmVerif.C02_calibrated_tree_marginal",
+    "PgmVerif.C02_max_calibrated_tree_exact",
 ]
 PARTIAL = ["calibrated + running intersection => clique beliefs are marginals (K&F Thm 10.4) is proved for sum-calibration of any tree given in "
-           "a leaf-peeling order with strictly positive sepset beliefs; the max-calibration analogue, zero sepset entries (0/0 = 0 convention) and "
+           "a leaf-peeling order with strictly positive sepset beliefs, and likewise for max-calibration (C02_max_calibrated_tree_exact, non-negative "
+           "beliefs); zero sepset entries (0/0 = 0 convention) and "
            "the fact that the code's two-pass schedule reaches calibration are decided per case: the implementation's final beliefs are "
            "compared with the exact (max-)marginals of the Lean spec",
            "networkx find_cliques / spanning tree are validated per case by the model's decidable tree / running-intersection predicates"]
@@ -26,7 +28,8 @@ BUDGET_QUICK = 90
 LEVEL_TEXT = ("Kernel-checked: a belief-update message preserves the clique-tree measure (prod beliefs = prod sepsets x prod factors) pointwise "
               "for ANY message schedule, makes the receiver agree with the sender on the sepset, and - for every tree with the running-intersection "
               "property, any number of cliques, positive sepset beliefs - calibration implies that each clique belief is the exact marginal "
-              "of the measure (C02_calibrated_tree_exact). That the implementation's schedule reaches calibration, max-calibration and zeros are decided per case: clique and sepset "
+              "of the measure (C02_calibrated_tree_exact), and max-calibration implies that it is the exact max-marginal (C02_max_calibrated_tree_exact). "
+              "That the implementation's schedule reaches calibration, and tables with zeros, are decided per case: clique and sepset "
               "beliefs after calibrate / max_calibrate are compared with the exact (max-)marginals of the brute-force spec, adjacent cliques "
               "must agree, every BP query (evidence by state name, all four model kinds) must equal the brute-force posterior; 6 hash seeds.")
 LEVEL_NOTE = "Trusted: Lean kernel + standard axioms; model; harness; networkx clique enumeration / spanning tree (outputs validated per case)."
